@@ -66,13 +66,18 @@ func newEnv(k *Case) (*Env, error) {
 			URL: fmt.Sprintf("%s/authorize/%d", e.srv.URL, i), Kind: "AUTHORIZING", CertType: "ALL",
 			Secret: base64.StdEncoding.EncodeToString([]byte("secret"))})
 	}
-	tr := &faultTransport{rec: e.rec, base: &http.Transport{DisableKeepAlives: true}, closed: closedAddr()}
+	closed, release := closedAddr()
+	e.closer = append(e.closer, release)
+	tr := &faultTransport{rec: e.rec, base: &http.Transport{DisableKeepAlives: true}, closed: closed}
 	yes := true
 	o := fixture.Opts{
 		SSH:          true,
 		JWKClaims:    &provisioner.Claims{EnableSSHCA: &yes},
 		JWKOptions:   &provisioner.Options{Webhooks: whs},
-		Provisioners: provisioner.List{&provisioner.SSHPOP{Type: "SSHPOP", Name: "sshpop", Claims: &provisioner.Claims{EnableSSHCA: &yes}}},
+		Provisioners: provisioner.List{
+			&provisioner.SSHPOP{Type: "SSHPOP", Name: "sshpop", Claims: &provisioner.Claims{EnableSSHCA: &yes}},
+			&provisioner.ACME{Type: "ACME", Name: "acme", Options: &provisioner.Options{Webhooks: whs}},
+		},
 		Extra:        []authority.Option{authority.WithWebhookClient(&http.Client{Transport: tr, Timeout: 300 * time.Millisecond})},
 		WrapDB: func(a db.AuthDB) db.AuthDB {
 			d, ok := a.(*db.DB)
